@@ -31,6 +31,33 @@ type C08Case struct {
 	VarForm   string        `json:"var_form,omitempty"`  // direct chain fallback undefined illtyped cycle
 	Longhands [][2]string   `json:"longhands,omitempty"` // shorthand: expected (name, value text; "" = initial)
 	Prefix    string        `json:"prefix,omitempty"`    // shorthand: longhand declared before the shorthand
+	// var form "repeat": one custom property used twice by the value
+	RepName    string   `json:"rep_name,omitempty"`
+	RepPattern string   `json:"rep_pattern,omitempty"` // the value, U standing for the repeated component
+	RepU       string   `json:"rep_u,omitempty"`
+	RepWiring  string   `json:"rep_wiring,omitempty"` // toplevel nested diamond
+	RepNames   []string `json:"rep_names,omitempty"`  // longhands observed
+}
+
+// values naming the same component twice
+var c08Repeat = []struct {
+	name, pattern, kind string
+	names               []string
+}{
+	{"margin", "U 0 0 U", "len", []string{"margin-top", "margin-right", "margin-bottom", "margin-left"}},
+	{"margin", "U U 3px", "len", []string{"margin-top", "margin-right", "margin-bottom", "margin-left"}},
+	{"padding", "1px U 2px U", "len", []string{"padding-top", "padding-right", "padding-bottom", "padding-left"}},
+	{"border-spacing", "U U", "len", []string{"border-spacing"}},
+	{"background-position", "U U", "len", []string{"background-position"}},
+	{"background-size", "U U", "len", []string{"background-size"}},
+	{"border-top-left-radius", "U U", "len", []string{"border-top-left-radius"}},
+	{"transform", "translate(U, U)", "len", []string{"transform"}},
+	{"transform", "scale(U) rotate(10deg) scale(U)", "num", []string{"transform"}},
+	{"color", "rgb(U, 0, U)", "byte", []string{"color"}},
+	{"background-color", "rgba(U, U, 7, 0.5)", "byte", []string{"background-color"}},
+	{"text-shadow", "U U red", "len", []string{"text-shadow"}},
+	{"font-family", "U, serif, U", "family", []string{"font-family"}},
+	{"grid-template-columns", "U 1fr U", "len", []string{"grid-template-columns"}},
 }
 
 var c08Invalid = []string{"unknown-prop: 1px", "-webkit-foo: bar", "color: 12px", "width: red", "margin-left:", "color: {}", "display: blocky", "width: 10 px", "colour: red", "margin: 1px 2px 3px 4px 5px", "color", ": red", "width: 10pxx", "z-index: 1.5", "opacity: red", "tab-size: red", "width: 10PXX", "float: middle", "border-top-style: 2px", "font-size: -1px", "padding-left: -2px", "@foo bar"}
@@ -189,7 +216,26 @@ func c08Gen(t *rapid.T, tier Tier) interface{} {
 	case "var":
 		c.Decl = gen.GenValidDecl(t)
 		c.Canon = c.Decl.Text(nil, false)
-		c.VarForm = rapid.SampledFrom([]string{"direct", "chain", "fallback", "undefined", "illtyped", "cycle", "partial"}).Draw(t, "vf")
+		c.VarForm = rapid.SampledFrom([]string{"direct", "chain", "fallback", "undefined", "illtyped", "cycle", "partial", "repeat"}).Draw(t, "vf")
+		if c.VarForm == "repeat" {
+			r := rapid.SampledFrom(c08Repeat).Draw(t, "rep")
+			c.RepName, c.RepPattern, c.RepNames = r.name, r.pattern, r.names
+			switch r.kind {
+			case "len":
+				c.RepU = fmt.Sprintf("%d%s", rapid.IntRange(1, 40).Draw(t, "ulen"), rapid.SampledFrom([]string{"px", "em", "pt", "%"}).Draw(t, "uunit"))
+				if c.RepU[len(c.RepU)-1] == '%' && (r.name == "border-spacing" || r.name == "text-shadow") {
+					c.RepU = c.RepU[:len(c.RepU)-1] + "px"
+				}
+			case "num":
+				c.RepU = fmt.Sprintf("%d", rapid.IntRange(1, 9).Draw(t, "unum"))
+			case "byte":
+				c.RepU = fmt.Sprintf("%d", rapid.IntRange(0, 255).Draw(t, "ubyte"))
+			case "family":
+				c.RepU = rapid.SampledFrom([]string{"Ahem", "\"My Font\"", "monospace"}).Draw(t, "ufam")
+			}
+			c.RepWiring = rapid.SampledFrom([]string{"toplevel", "nested", "nested", "diamond", "diamond"}).Draw(t, "wiring")
+			c.Canon = c.RepName + ":" + strings.ReplaceAll(c.RepPattern, "U", c.RepU)
+		}
 	case "interleave":
 		n := rapid.IntRange(1, 5).Draw(t, "nblock")
 		for i := 0; i < n; i++ {
@@ -335,7 +381,10 @@ func c08Check(ci interface{}) Verdict {
 		value := c.Canon[strings.Index(c.Canon, ":")+1:]
 		// longhand names to observe
 		var names []string
-		if _, ok := pr.PropsFromNames[name]; ok {
+		if c.VarForm == "repeat" {
+			name, names = c.RepName, c.RepNames
+			labels = append(labels, "repeat:"+c.RepWiring)
+		} else if _, ok := pr.PropsFromNames[name]; ok {
 			names = []string{name}
 		} else if lh := c08Longhands(c.Decl); lh != nil {
 			for _, l := range lh {
@@ -361,6 +410,19 @@ func c08Check(ci interface{}) Verdict {
 				last := gen.ValidDecl{Parts: c.Decl.Parts[len(c.Decl.Parts)-1:]}.Text(nil, false)[1:]
 				block, equiv = "--x:"+last+";"+head+" var(--x)", c.Canon
 			}
+		case "repeat":
+			// substitution does not depend on how often, or through which path, a custom property is named
+			switch c.RepWiring {
+			case "toplevel":
+				block = "--u:" + c.RepU + ";" + name + ":" + strings.ReplaceAll(c.RepPattern, "U", "var(--u)")
+			case "nested":
+				block = "--u:" + c.RepU + ";--x:" + strings.ReplaceAll(c.RepPattern, "U", "var(--u)") + ";" + name + ":var(--x)"
+			default: // diamond
+				pat := strings.Replace(c.RepPattern, "U", "var(--a)", 1)
+				pat = strings.ReplaceAll(pat, "U", "var(--b)")
+				block = "--u:" + c.RepU + ";--a:var(--u);--b:var(--u);--x:" + pat + ";" + name + ":var(--x)"
+			}
+			equiv = c.Canon
 		case "undefined":
 			block, equiv = name+":var(--undef)", "IACVT"
 		case "illtyped":
